@@ -7,6 +7,12 @@ func (nodes ChildNodes) Individuals() (individuals IndividualNodes) {
 		pointer := valueToPointer(child.Value())
 		individual := nodes[0].Family().Document().NodeByPointer(pointer)
 
+		// The child may point to a record that does not exist or that is not
+		// an individual.
+		if _, ok := individual.(*IndividualNode); !ok {
+			continue
+		}
+
 		individuals = append(individuals, individual.(*IndividualNode))
 	}
 
